@@ -49,6 +49,9 @@ def firstLen (unit base len : Nat) : Nat := min ((unit - base % unit) % unit) le
 /-- swap 8 bytes + swap 8 bytes of a 16-byte block (`KeyBlob.encrypt_image(byte_swap=True)`) -/
 def swap8 (b : Bytes) : Bytes := (b.take 8).reverse ++ ((b.drop 8).take 8).reverse
 
+/-- `extend_block(data, n)` with zero padding (for data not longer than `n`) -/
+def zeroPadTo (n : Nat) (b : Bytes) : Bytes := b ++ zeros (n - b.length)
+
 def validAesKeyLen (k : Bytes) : Bool := k.length == 16 || k.length == 24 || k.length == 32
 
 /-- `Cipher(algorithms.AES(key), modes.XTS(tweak))`: the key is 32 or 64 bytes, split in halves (data key, tweak key);
@@ -581,5 +584,103 @@ def beeHwRead (c : CryptoOps) (es : List BeeEngine) : Nat → Nat → Bytes → 
 
 def beeHwReadAll (c : CryptoOps) (es : List BeeEngine) (base : Nat) (ct : Bytes) : Bytes :=
   beeHwRead c es (blocksFor ct.length) base ct
+
+
+/-! ## OTFAD through SB2.1 (`spsdk/sbfile/sb2/sb_21_helper.py`: BD commands `encrypt (id) { load … > addr; }` and
+    `keywrap (id) { load {{ kek }} > addr; }`) and the `KeyBlob` constructor -/
+
+/-- the checks of `KeyBlob.__init__` as coded — note the `and`: a key of the wrong length is accepted as long as the
+    counter has 8 bytes (and vice versa) -/
+def KeyBlob.ctorOk (kb : KeyBlob) : Bool :=
+  !(kb.key.length != otfadKeySize && kb.ctr.length != otfadCtrSize)
+  && decide (kb.start ≤ kb.end_) && decide (kb.end_ ≤ 0xFFFFFFFF)
+  && kb.flags / (otfadKeyFlagMask + 1) == 0            -- `key_flags & ~_KEY_FLAG_MASK == 0`
+  && kb.start % (otfadStartAddrMask + 1) == 0          -- `start_addr & _START_ADDR_MASK == 0`
+
+/-- the key blob the SB2.1 helper builds: default flags `VLD | ADE`, no test parameters -/
+def Sb21.blob (start end_ : Nat) (key ctr : Bytes) : KeyBlob :=
+  { start := start, end_ := end_, key := key, ctr := ctr, flags := otfadFlagVLD ||| otfadFlagADE, zeroFill := [], crcFill := [] }
+
+/-- `SB21Helper._encrypt`: ADE / VLD are read from the low bits of the `end` value; the data are zero padded to 512
+    bytes; `encrypt_image` is called WITHOUT a counter value (it counts from the key blob's start address) -/
+def Sb21.encrypt (c : CryptoOps) (start end_ : Nat) (key ctr : Bytes) (swap : Bool) (address : Nat) (data : Bytes) : PyRes Bytes :=
+  let kb := Sb21.blob start end_ key ctr
+  if !kb.ctorOk then .error .spsdk
+  else if end_ &&& otfadFlagADE ≠ 0 ∧ end_ &&& otfadFlagVLD ≠ 0 then
+    kb.encryptImage c address (zeroPad sb21EncryptAlign data) swap none
+  else .ok data
+
+/-- `SB21Helper._keywrap`: `KeyBlob(start, end, key, counter).export(kek)`; `rnd` = the random `zero_fill` -/
+def Sb21.keywrap (c : CryptoOps) (start end_ : Nat) (key ctr kek rnd : Bytes) : PyRes Bytes :=
+  let kb := Sb21.blob start end_ key ctr
+  if !kb.ctorOk then .error .spsdk else kb.export c kek 0 rnd
+
+/-! ## BEE region header (`BeeRegionHeader.export`): EKIB = AES-ECB(sw_key, kib_key ‖ kib_iv) at offset 0,
+    EPRDB = AES-CBC(kib_key, kib_iv, PRDB) at offset 0x80, 0x200 bytes in total -/
+
+structure BeeHdr where
+  engine : BeeEngine          -- sw key, counter, FAC regions
+  levels : List Nat           -- protected level of every FAC region (missing = 0)
+  lockOptions : Nat
+  kibKey : Bytes
+  kibIv : Bytes
+  deriving Repr, DecidableEq
+
+namespace BeeHdr
+
+/-- `BeeFacRegion.validate()` as coded — note the `and`: only a region whose start AND length are both unaligned is refused -/
+def facOk (f : Fac) (level : Nat) : Bool :=
+  !(f.start % beeEncrBlockSize != 0 && f.length % beeEncrBlockSize != 0)
+  && decide (level ≤ 3) && decide (f.end_ ≤ 0xFFFFFFFF) && decide (f.start < f.end_)
+
+def facBytes (f : Fac) (level : Nat) : Bytes :=
+  leEnc 4 f.start ++ leEnc 4 f.end_ ++ leEnc 4 level ++ zeros 20
+
+def facsBytes : List Fac → List Nat → Bytes
+  | [], _ => []
+  | f :: fs, ls => facBytes f (ls.headD 0) ++ facsBytes fs ls.tail
+
+def facsOk : List Fac → List Nat → Bool
+  | [], _ => true
+  | f :: fs, ls => facOk f (ls.headD 0) && facsOk fs ls.tail
+
+/-- the plain 256-byte PRDB -/
+def prdbPlain (h : BeeHdr) : Bytes :=
+  let e := h.engine
+  let r := leEnc 4 beeTagL ++ leEnc 4 beeTagH ++ leEnc 4 beeVersion ++ leEnc 4 e.facs.length
+    ++ leEnc 4 e.envStart ++ leEnc 4 e.envEnd ++ leEnc 4 beeModeCtr ++ leEnc 4 h.lockOptions ++ e.counter.reverse ++ zeros 32
+    ++ facsBytes e.facs h.levels
+  zeroPadTo beePrdbSize r
+
+end BeeHdr
+
+/-- `BeeRegionHeader.export()` (AES/CTR mode PRDB) -/
+def BeeHdr.export (c : CryptoOps) (h : BeeHdr) : PyRes Bytes :=
+  let e := h.engine
+  if h.kibKey.length ≠ 16 ∨ h.kibIv.length ≠ 16 then .error .spsdk                     -- BeeKIB.validate
+  else if e.counter.length ≠ 16 then .error .spsdk
+  else if e.counter.drop 12 ≠ [0, 0, 0, 0] then .error .spsdk
+  else if e.facs.length = 0 ∨ e.facs.length > beeFacRegions then .error .spsdk
+  else if !BeeHdr.facsOk e.facs h.levels then .error .spsdk
+  else if e.key.length ≠ 16 then .error .spsdk
+  else if h.lockOptions ≥ 2 ^ 32 then .error .other                                    -- struct.error
+  else
+    .ok (zeroPadTo beeHdrSize (zeroPadTo beeHdrPrdbOffset (ecbEnc c e.key (h.kibKey ++ h.kibIv))
+      ++ cbcEnc c h.kibKey h.kibIv h.prdbPlain))
+
+/-- hardware / ROM side: recover the engine configuration from a 0x200-byte region header with the SW key:
+    AES-ECB decrypt the KIB, AES-CBC decrypt the PRDB with the KIB key / IV, check the tags and the version,
+    read the counter (stored byte-reversed) and the FAC regions (start, end) -/
+def beeParseFacs : Nat → Bytes → List Fac
+  | 0, _ => []
+  | n + 1, b => ⟨leDec (b.take 4), leDec ((b.drop 4).take 4) - leDec (b.take 4)⟩ :: beeParseFacs n (b.drop 32)
+
+def beeHeaderUnwrap (c : CryptoOps) (swKey hdr : Bytes) : Option BeeEngine :=
+  let kib := ecbDec c swKey (hdr.take 32)
+  let p := cbcDec c (kib.take 16) (kib.drop 16) ((hdr.drop 0x80).take 0x100)
+  if hdr.length < 0x200 then none
+  else if leDec (p.take 4) ≠ 0x5F474154 ∨ leDec ((p.drop 4).take 4) ≠ 0x52444845 ∨ leDec ((p.drop 8).take 4) ≠ 0x56010000 then none
+  else if leDec ((p.drop 24).take 4) ≠ 1 then none           -- AES mode: CTR
+  else some ⟨swKey, ((p.drop 32).take 16).reverse, beeParseFacs (leDec ((p.drop 12).take 4)) (p.drop 80)⟩
 
 end SpsdkVerif.FlashEnc
